@@ -60,6 +60,27 @@ TEMPLATES = ["{{ semver }}|{{ pep440 }}", "{{ semver_obj.build_part }}/{{ pep440
 def gen_emit_case(rng):
     """a command line (and stdin) whose --output-format zerv output is an 'emitted object'"""
     k = rng.random()
+    if k < 0.07:
+        # "custom JSON of any shape": deep nesting (serde_json reads up to 127 levels), non-object documents, odd keys, numeric edges
+        import json as _json
+        kk = rng.random()
+        if kk < 0.55:
+            n = rng.choice([8, 30, 61, 62, 63, 64, 65, 90, 126, 127, 128, 200])
+            how = rng.choice(["obj", "arr", "mixed"])
+            if how == "obj":
+                doc = '{"a":' * n + "1" + "}" * n
+            elif how == "arr":
+                doc = '{"a":' + "[" * (n - 1) + "1" + "]" * (n - 1) + "}"
+            else:
+                doc = '{"a":[' * (n // 2) + "1" + "]}" * (n // 2)
+        elif kk < 0.7:
+            doc = rng.choice(["[1,2]", '"str"', "5", "null", "true", "[]", "{}", "-0.0", "[[],{}]"])
+        elif kk < 0.85:
+            doc = _json.dumps({rng.choice(["", 'a"b', "k\n", "日本", "a.b", "A", " ", "0", "-"]): rng.choice([1, "é", None, [1], {"": {"b": "dots"}}]) for _ in range(3)}, ensure_ascii=rng.random() < 0.5)
+        else:
+            doc = '{"n": %s}' % rng.choice(["18446744073709551616", "-9223372036854775808", "-9223372036854775809", "5e-324", "1.7976931348623157e308", "9007199254740993.0",
+                                              "1e21", "1.5e-7", "0.1", "-0", "123456789012345678901234567890"])
+        return ["version", "--source", "none", "--tag-version", "1.2.3", "--custom", doc, "--output-format", "zerv"], None
     if k < 0.45:
         base_argv, stdin = c05.gen_start(rng)
         fs = c05.gen_flagset(rng, dict(core=[("var", "Major"), ("var", "Minor"), ("var", "Patch")], extra_core=[("var", "Epoch"), ("var", "PreRelease")], build=[]))
